@@ -27,3 +27,24 @@ package transform
 //@   ensures record.traceID.IsValid() ==> len(r.TraceId) == 16 && (forall i in 0 .. 16 : r.TraceId[i] == record.traceID[i])
 //@   ensures !record.spanID.IsValid() ==> len(r.SpanId) == 0
 //@   ensures record.spanID.IsValid() ==> len(r.SpanId) == 8 && (forall i in 0 .. 8 : r.SpanId[i] == record.spanID[i])
+
+// attribute lists: same length and order; the input is only read (fresh messages are built)
+//@ func LogAttrs(attrs []api.KeyValue) (out []*cpb.KeyValue)
+//@   overflow assumed
+//@   unchecked frame fresh protobuf messages are written
+//@   modifies
+//@   ensures len(out) == len(attrs)
+//@   assert@call LogAttr#* : $arg0 == attrs[$k]
+//@   loop#1 invariant len(out) == $k && $k <= len(attrs) && cap(out) == len(attrs)
+//@ func LogAttrValues(vals []api.Value) (out []*cpb.AnyValue)
+//@   overflow assumed
+//@   unchecked frame fresh protobuf messages are written
+//@   modifies
+//@   ensures len(out) == len(vals)
+//@   assert@call LogAttrValue#* : $arg0 == vals[$k]
+//@   loop#1 invariant len(out) == $k && $k <= len(vals) && cap(out) == len(vals)
+
+// the SDK record's attribute walk calls the callback on each attribute and writes nothing itself (other module: assumed)
+//@ extern go.opentelemetry.io/otel/sdk/log Record.WalkAttributes(f func(api.KeyValue) bool)
+//@   trusted "read-only iteration over the record's attributes (sdk/log, another module); the callback's writes to captured variables are not modelled"
+//@   modifies
